@@ -1,5 +1,6 @@
 // harness_util.hpp — shared plumbing for the C++ correspondence harnesses.
 #pragma once
+#include <sys/time.h>
 #include <cstdint>
 #include <cstdio>
 #include <cstdlib>
@@ -80,7 +81,9 @@ inline void install_signal_handlers()
         std::memset(&sa, 0, sizeof(sa));
         sa.sa_handler = on_alarm;
         sa.sa_flags = SA_NODEFER;
-        sigaction(SIGALRM, &sa, nullptr);
+        // the watchdog counts CPU time of this process (ITIMER_PROF), not wall time: a loaded machine
+        // must not turn a short call into a "hang"
+        sigaction(SIGPROF, &sa, nullptr);
     }
     struct sigaction sa;
     std::memset(&sa, 0, sizeof(sa));
@@ -88,6 +91,14 @@ inline void install_signal_handlers()
     sa.sa_flags = SA_NODEFER;
     sigaction(SIGSEGV, &sa, nullptr);
     sigaction(SIGBUS, &sa, nullptr);
+}
+
+inline void set_watchdog(unsigned seconds)
+{
+    struct itimerval tv;
+    std::memset(&tv, 0, sizeof(tv));
+    tv.it_value.tv_sec = seconds;
+    setitimer(ITIMER_PROF, &tv, nullptr);
 }
 
 // run f(); returns 0 = ok, 1 = assertion handler invoked, 2 = memory fault,
@@ -103,11 +114,11 @@ int guarded(F&& f, unsigned seconds = 0)
     if(r == 0)
     {
         if(seconds)
-            alarm(seconds);
+            set_watchdog(seconds);
         f();
     }
     if(seconds)
-        alarm(0);
+        set_watchdog(0);
     t.armed = 0;
     return r;
 }
